@@ -185,9 +185,11 @@ func c14a(c *Ctx) {
 		}
 		nIdx, bad := 0, ""
 		var disp *ast.CallExpr
+		ddefs := localDefs(info, fd.Body)
 		ast.Inspect(fd.Body, func(n ast.Node) bool {
 			if call, ok := n.(*ast.CallExpr); ok {
-				if ix, ok := unparen(call.Fun).(*ast.IndexExpr); ok && isPkgObj(info, ix.X, mx("lang"), d.reg) {
+				// _reg[dataType](…), or f(…) with the single definition f := _reg[dataType]
+				if ix, ok := ddefs.resolve1(info, call.Fun).(*ast.IndexExpr); ok && isPkgObj(info, ix.X, mx("lang"), d.reg) {
 					disp = call
 				}
 			}
@@ -237,7 +239,7 @@ func c14a(c *Ctx) {
 		if !errRet {
 			bad = "the error of the registered function is not returned"
 		}
-		c.Check(bad == "" && nIdx >= 2, "R14a", d.fn+":dispatch", fd.Pos(), "lang.%s must look up %s[dataType], call it with its own arguments and return its error (%s)", d.fn, d.reg, bad)
+		c.Check(bad == "" && nIdx >= 1, "R14a", d.fn+":dispatch", fd.Pos(), "lang.%s must look up %s[dataType], call it with its own arguments and return its error (%s)", d.fn, d.reg, bad)
 	}
 	for _, d := range []struct{ fn, reg string }{{"RegisterMarshaller", "_marshallers"}, {"RegisterUnmarshaller", "_unmarshallers"}} {
 		fd, pk := c.MustFunc("R14a", "lang", "", d.fn)
@@ -312,11 +314,11 @@ func c14a(c *Ctx) {
 		if !ok || !terminates(info, is.Body.List) {
 			return false
 		}
-		b, ok := unparen(is.Cond).(*ast.BinaryExpr)
-		if !ok || b.Op != token.NEQ {
+		x, op, ok := c08NilCmp(info, is.Cond) // err != nil | nil != err
+		if !ok || op != token.NEQ {
 			return false
 		}
-		id, ok := unparen(b.X).(*ast.Ident)
+		id, ok := x.(*ast.Ident)
 		if !ok || info.ObjectOf(id) != errObj {
 			return false
 		}
@@ -341,7 +343,8 @@ func c14a(c *Ctx) {
 			pCall = call
 		}
 		if se, ok := call.Fun.(*ast.SelectorExpr); ok {
-			if inner, ok := unparen(se.X).(*ast.SelectorExpr); ok && isP(inner.X) && inner.Sel.Name == "Stdout" {
+			// p.Stdout.<method>, or <local>.<method> with the single definition local := p.Stdout
+			if inner, ok := defs.resolve1(info, se.X).(*ast.SelectorExpr); ok && isP(inner.X) && inner.Sel.Name == "Stdout" {
 				switch se.Sel.Name {
 				case "Write", "Writeln":
 					wCall = call
@@ -688,10 +691,18 @@ func c14b(c *Ctx) {
 func c14LenAtLeast(c *Ctx, info *types.Info, stack []ast.Node, x ast.Expr, k int64) bool {
 	type pred func(int64) bool
 	var preds []pred
+	// `n := len(x)` (single definition) stands for len(x) in the guards
+	var defs defMap
+	if len(stack) > 0 {
+		defs = localDefs(info, stack[0])
+	}
 	for _, f := range factsOf(guardsAt(info, stack)) {
 		e, op, kk, ok := cmpNorm(info, f.E)
 		if !ok {
 			continue
+		}
+		if defs != nil {
+			e = defs.resolve1(info, e)
 		}
 		call, ok := isBuiltinCall(info, e, "len")
 		if !ok || len(call.Args) != 1 || !c.sameExpr(call.Args[0], x) {
@@ -781,7 +792,7 @@ func c14cRule(c *Ctx) {
 						return true
 					}
 					k, ok := constInt(info, b.Y)
-					ln, ok2 := isBuiltinCall(info, b.X, "len")
+					ln, ok2 := isBuiltinCall(info, localDefs(info, fd.Body).resolve1(info, b.X), "len")
 					if !ok || !ok2 || k <= 0 || len(ln.Args) != 1 {
 						return true
 					}
